@@ -76,7 +76,11 @@ class World:
             self.M = cls("M", dim=d)
         else:
             raise ValueError(m["type"])
-        self.logical = Domain("Omega", dim=d)
+        if case.get("ncube"):
+            from sympde.topology import Line, Square, Cube     # a patch with boundary faces (Trace)
+            self.logical = [Line, Square, Cube][d - 1]("Omega")
+        else:
+            self.logical = Domain("Omega", dim=d)
         self.D = self.M(self.logical)
         self.funcs = {}
         for name, sp_ in sorted(case["spaces"].items()):
@@ -133,6 +137,12 @@ def build(j, w):
         return [dx, dy, dz][j["i"]](build(j["a"], w))
     if k == "mat":
         return ImmutableDenseMatrix([[build(a, w) for a in row] for row in j["rows"]])
+    if k == "tuple":
+        return Tuple(*[build(a, w) for a in j["a"]])
+    if k == "trace":
+        from sympde.topology.space import trace_0, trace_1
+        B = w.D.get_boundary(axis=j["axis"], ext=j["ext"])
+        return (trace_0 if j["order"] == 0 else trace_1)(build(j["a"], w), B)
     raise ValueError(k)
 
 
@@ -187,6 +197,11 @@ def ser_tree(e):
             return {"k": "fn", "f": name, "a": ser_tree(e.args[0])}
     if isinstance(e, (Matrix, ImmutableDenseMatrix)):
         return {"k": "mat", "rows": [[ser_tree(e[i, j]) for j in range(e.shape[1])] for i in range(e.shape[0])]}
+    if isinstance(e, Tuple):
+        return {"k": "mat", "rows": [[ser_tree(a)] for a in e], "tuple": True}
+    from sympde.topology.space import Trace
+    if isinstance(e, Trace):
+        return {"k": "trace", "order": int(e.order), "a": ser_tree(e.expr), "axis": int(e.boundary.axis), "ext": int(e.boundary.ext)}
     raise ser.Unsupported("input node %s" % type(e).__name__)
 
 
@@ -194,6 +209,10 @@ def ser_tree(e):
 def _prep(e):
     """floats with an integral / short rational value -> exact; pi -> the constant 'pi' (D pi = 0)."""
     e = sp.sympify(e)
+    from sympde.topology import NormalVector
+    nrep = {a: Symbol("nrm_%d" % int(a.indices[0])) for a in e.atoms(sp.Indexed) if isinstance(a.base, NormalVector)}
+    if nrep:
+        e = e.xreplace(nrep)
     rep = {}
     for f in e.atoms(sp.Float):
         r = sp.nsimplify(f, rational=True)
@@ -357,6 +376,15 @@ class Explicit:
         e = sp.sympify(e)
         if isinstance(e, (Matrix, ImmutableDenseMatrix)):
             return Matrix(e.shape[0], e.shape[1], lambda i, j: self.classical(e[i, j]))
+        if isinstance(e, Tuple):
+            return Matrix([self.classical(a) for a in e])
+        from sympde.topology.space import Trace
+        if isinstance(e, Trace):
+            a = self.classical(e.expr)
+            if int(e.order) == 0:
+                return a
+            # trace of order 1: the normal component, with the components of the normal as shared constants
+            return sum(a[i] * self.const("nrm_%d" % i) for i in range(d))
         if e.is_Number:
             return e
         if isinstance(e, ScalarFunction):
@@ -593,6 +621,14 @@ def classify(ex):
 
 def run_case(case):
     from sympy.core.cache import clear_cache
+    if case.get("iface") is not None:
+        # expressions of restricted functions on an interface of a mapped two-patch domain: runner + oracle of their own
+        import C03if_impl
+        return C03if_impl.run_if_case(case, sys.modules[__name__])
+    if case.get("dc") is not None:
+        # direct calls of Jacobian / Covariant / Contravariant
+        import C03dc_impl
+        return C03dc_impl.run_dc_case(case, sys.modules[__name__])
     clear_cache()
     from sympde.topology import LogicalExpr
     from sympde.expr.evaluation import TerminalExpr
